@@ -161,7 +161,20 @@ def in_child(ctx, fn):
             code = 3
         finally:
             os._exit(code)
-    _, status = os.waitpid(pid, 0)
+    import time as _time
+    deadline = _time.time() + (600 if ctx.quick else 3000)
+    while True:
+        wpid, status = os.waitpid(pid, os.WNOHANG)
+        if wpid != 0:
+            break
+        if _time.time() > deadline:
+            os.kill(pid, 9)
+            os.waitpid(pid, 0)
+            for f in (out, prog, out + '.err'):
+                if os.path.exists(f):
+                    os.remove(f)
+            raise ToolFailure('timeout: the case builder (implementation calls) did not finish in time')
+        _time.sleep(0.05)
     try:
         if not os.WIFSIGNALED(status) and os.WEXITSTATUS(status) != 0:
             err = open(out + '.err').read() if os.path.exists(out + '.err') else 'exit %d' % os.WEXITSTATUS(status)
